@@ -35,6 +35,28 @@ class DataBool:
         return f"<{self.lhs!r} {self.op} {self.rhs!r}>"
 
 
+class ElemCond:
+    """An elementwise comparison of symbolic tensors (only usable as the condition of `where`)."""
+
+    def __init__(self, op, lhs, rhs):
+        self.op, self.lhs, self.rhs = op, lhs, rhs
+
+    def __bool__(self):
+        raise EngineError("truth value of an elementwise comparison of symbolic tensors")
+
+    @property
+    def ndim(self):
+        return self.lhs.ndim
+
+    @property
+    def shape(self):
+        return self.lhs.shape
+
+
+# side conditions under which the current obligation is proved (DESIGN §3 C04: "no zero column"); set by the obligation
+SIDE = {"nonzero_where": False, "used": []}
+
+
 # input registry: name -> dict(digits=[sizes], axes=[[digit positions]], dtype=..)
 INPUTS = {}
 # opaque scalars: name -> (opname, operand GTensor); e.g. max over all entries.  They are uninterpreted in proofs
@@ -164,8 +186,8 @@ class GTensor:
 
     # comparisons on data
     def _cmp(self, o, op):
-        if self.ndim != 0 and not (isinstance(o, GTensor) and o.ndim == 0) and self.ndim != 0:
-            raise EngineError("elementwise comparison of symbolic tensors")
+        if self.ndim != 0:
+            return ElemCond(op, self, o)
         return DataBool(op, self, o)
 
     def __lt__(self, o):
@@ -708,6 +730,14 @@ def stack(arrays, axis=0):
 
 
 def where(cond, x, y):
+    log("where")
+    if isinstance(cond, ElemCond) and cond.op == "==" and not isinstance(cond.rhs, GTensor) and cond.rhs == 0 and SIDE["nonzero_where"]:
+        # side condition of the obligation: the tested quantity has no zero entry, so where(q == 0, x, y) = y
+        SIDE["used"].append(("nonzero", repr(cond.lhs.body)[:120]))
+        y = lift(y)
+        if y.ndim == cond.lhs.ndim:
+            return y
+        return binop(y, ones(cond.lhs.shape, y.dtype), "mul")
     raise EngineError("where on symbolic data (E1-generic)")
 
 
